@@ -90,7 +90,7 @@ def level_recipe(triple, rng, nmods=None, module_override=None, ovh_override=Non
         mods = []
         for j in range(len(chain) - 1):
             if module_override and j == 0:
-                mods.append(module_override)
+                mods.append(module_override["seq"] if isinstance(module_override, dict) else module_override)
                 continue
             # (YTKProduct carries the next-level site halves itself, split over its overhang and body groups)
             probe = mcls.structure().replace("(", "").replace(")", "")
@@ -101,15 +101,40 @@ def level_recipe(triple, rng, nmods=None, module_override=None, ovh_override=Non
         return {"fn": "level", "triple": list(triple), "enz": classes.enz_spec(this), "nenz": classes.enz_spec(nxt),
                 "vcls": vspec, "mcls": [mspec] * len(mods), "ncls": nspec,
                 "vector": {"id": "vec", "seq": gen.rotate(vec, rng.randrange(len(vec)))},
-                "modules": [{"id": "ins%d" % (i + 1), "seq": gen.rotate(m, rng.randrange(len(m)))} for i, m in enumerate(mods)],
-                "id": "lvl", "name": "lvl"}
+                "modules": [dict(module_override) if (isinstance(module_override, dict) and i == 0) else
+                            {"id": "ins%d" % (i + 1), "seq": gen.rotate(m, rng.randrange(len(m)))} for i, m in enumerate(mods)],
+                "id": "lvl%d" % rng.randrange(100000), "name": "lvl"}
     return None
+
+
+def feats_from_out(out):
+    """feature specs (for mk_record) of a product, so that it can be re-used as an annotated module"""
+    import json
+    n = len(out["seq"])
+    specs = []
+    for f in out["feats"]:
+        quals = json.loads(f["lab"].split("|", 1)[1])
+        parts = []
+        strand = 1
+        for p in f["parts"]:
+            idx = p["idx"][::-1] if p["st"] == -1 else p["idx"]
+            strand = p["st"] if p["st"] in (1, -1) else None
+            a = idx[0]
+            L = len(idx)
+            if a + L <= n:
+                parts.append([a, a + L])
+            else:
+                parts.append([a, n])
+                parts.append([0, a + L - n])
+        specs.append({"type": f["type"], "strand": strand, "parts": parts, "quals": quals})
+    return specs
 
 
 def exec_level(r):
     """assemble at this level, type the product with the next-level class, assemble it again at the next level"""
     loader.load()
-    evs = exec_assembly(dict(r, fn="assemble"))
+    # the level classes accept exactly the decomposable plasmids generated here, so every assembly clause applies
+    evs = exec_assembly(dict(r, fn="assemble", assume_generic=True))
     asm = evs[0]
     ev = {"ev": "NextLevel", "enz": asm["enz"], "vec": asm["vec"], "mods": asm["mods"], "out": asm["out"],
           "nenz": enzmod.enz_json(classes.cutter_of(r["nenz"])),
@@ -158,7 +183,8 @@ def two_level(run, provenance=False):
                 nx = tr[-1]["next"]["res"]
                 if tr[0]["out"]["kind"] != "product" or not nx["valid"]:
                     break
-                module = dna.dec(tr[0]["out"]["seq"])
+                # the product, with its features (inner provenance included), becomes the module of the next level
+                module = {"id": tr[0]["out"]["id"], "seq": dna.dec(tr[0]["out"]["seq"]), "feats": feats_from_out(tr[0]["out"])}
                 ovh = [dna.dec(nx["up"]).upper(), dna.dec(nx["down"]).upper()]
     run.validate("two-level", "Trace_Assembly", traces, recipes, sigfn=sig, describe=describe)
     run.extra["two_level_steps"] = len(traces)
